@@ -379,6 +379,45 @@ theorem slist_sublist_guard (l : Chain) (b e : Nat) (m : Mem) :
     · simp [ha]
 theorem slist_sublist_guard_status : Stat.errInvalidRange.code = Gen.cc_slist_sublist_guard_status := by decide
 
+/-! ## every `return CC_ERR_…;` is accounted for
+
+`<f>_error_returns` is the number of `return CC_ERR_…;` statements in the text of the function (plus those of the
+helper whose status it hands on).  The theorems above tie the *first* argument guard to the model; these pin the
+number of rejections the C text has at all, so that a guard added behind the first one (or removed) breaks the
+build as well. -/
+
+theorem array_add_at_error_returns : Gen.cc_array_add_at_error_returns = 1 := by decide
+theorem array_replace_at_error_returns : Gen.cc_array_replace_at_error_returns = 1 := by decide
+theorem array_swap_at_error_returns : Gen.cc_array_swap_at_error_returns = 1 := by decide
+theorem array_remove_at_error_returns : Gen.cc_array_remove_at_error_returns = 1 := by decide
+theorem array_get_at_error_returns : Gen.cc_array_get_at_error_returns = 1 := by decide
+theorem array_subarray_error_returns : Gen.cc_array_subarray_error_returns = 3 := by decide
+theorem sized_add_at_error_returns : Gen.cc_array_sized_add_at_error_returns = 1 := by decide
+theorem sized_replace_at_error_returns : Gen.cc_array_sized_replace_at_error_returns = 1 := by decide
+theorem sized_swap_at_error_returns : Gen.cc_array_sized_swap_at_error_returns = 1 := by decide
+theorem sized_remove_at_error_returns : Gen.cc_array_sized_remove_at_error_returns = 1 := by decide
+theorem sized_get_at_error_returns : Gen.cc_array_sized_get_at_error_returns = 1 := by decide
+theorem sized_peek_error_returns : Gen.cc_array_sized_peek_error_returns = 1 := by decide
+theorem sized_subarray_error_returns : Gen.cc_array_sized_subarray_error_returns = 3 := by decide
+theorem deque_add_at_error_returns : Gen.cc_deque_add_at_error_returns = 2 := by decide
+theorem deque_replace_at_error_returns : Gen.cc_deque_replace_at_error_returns = 1 := by decide
+theorem deque_remove_at_error_returns : Gen.cc_deque_remove_at_error_returns = 1 := by decide
+theorem deque_get_at_error_returns : Gen.cc_deque_get_at_error_returns = 1 := by decide
+theorem list_add_at_error_returns : Gen.cc_list_add_at_error_returns = 2 := by decide
+theorem list_add_all_at_error_returns : Gen.cc_list_add_all_at_error_returns = 2 := by decide
+theorem list_splice_at_error_returns : Gen.cc_list_splice_at_error_returns = 1 := by decide
+theorem list_remove_at_error_returns : Gen.cc_list_remove_at_error_returns = 1 := by decide
+theorem list_replace_at_error_returns : Gen.cc_list_replace_at_error_returns = 1 := by decide
+theorem list_get_at_error_returns : Gen.cc_list_get_at_error_returns = 1 := by decide
+theorem list_sublist_error_returns : Gen.cc_list_sublist_error_returns = 1 := by decide
+theorem slist_add_at_error_returns : Gen.cc_slist_add_at_error_returns = 2 := by decide
+theorem slist_add_all_at_error_returns : Gen.cc_slist_add_all_at_error_returns = 2 := by decide
+theorem slist_splice_at_error_returns : Gen.cc_slist_splice_at_error_returns = 1 := by decide
+theorem slist_remove_at_error_returns : Gen.cc_slist_remove_at_error_returns = 1 := by decide
+theorem slist_replace_at_error_returns : Gen.cc_slist_replace_at_error_returns = 1 := by decide
+theorem slist_get_at_error_returns : Gen.cc_slist_get_at_error_returns = 1 := by decide
+theorem slist_sublist_error_returns : Gen.cc_slist_sublist_error_returns = 1 := by decide
+
 /-- the statements are not vacuous: a three-element array (which satisfies the invariant) turns index 3
 away with the guard's status and accepts index 2 -/
 example :
